@@ -436,6 +436,16 @@ class SymExec:
             if m.group(2) == "checked_sub":
                 return ret(enum(z3.If(z3.ULT(a, b), z3.BitVecVal(0, 8), z3.BitVecVal(1, 8)), {1: [a - b]}))
             return ret(a + b if m.group(2) == "wrapping_add" else a - b)
+        m = re.match(r"^core::num::<impl (u8|u16|u32|u64|usize)>::(saturating_sub|saturating_add)$", callee)
+        if m:
+            a, b = vals
+            if not (is_bv(a) and is_bv(b)):
+                raise Unsupported("%s on %r, %r" % (callee, a, b))
+            if m.group(2) == "saturating_sub":
+                return ret(z3.If(z3.ULT(a, b), z3.BitVecVal(0, a.size()), a - b))
+            w = a.size()
+            over = z3.Extract(w, w, z3.ZeroExt(1, a) + z3.ZeroExt(1, b)) == 1
+            return ret(z3.If(over, z3.BitVecVal(-1, w), a + b))
         m = re.match(r"^NonZero::<(u8|u16|u32|u64|usize)>::(get|checked_add|new)$", callee)
         if m:
             if m.group(2) == "get":
